@@ -485,7 +485,27 @@ def run_check(pid, module, tier, seed, replay=None):
             case = json.loads(Path(replay).read_text())
             module.replay(env, res, case)
         else:
-            module.run(env, res)
+            try:
+                module.run(env, res)
+            except (Infra, KeyboardInterrupt):
+                raise
+            except BaseException as e:  # noqa
+                # an exception that comes out of the tree under test and that the property's harness does not
+                # classify is a broken correspondence (the implementation did something the model has no
+                # counterpart for), not an infrastructure failure; a crash of the harness itself still is one
+                import traceback as _tb
+                frames = _tb.extract_tb(e.__traceback__)
+                in_repo = [f for f in frames if str(f.filename).startswith(str(REPO))]
+                if not in_repo or isinstance(e, (SystemExit, MemoryError)):
+                    raise
+                last = in_repo[-1]
+                res.mismatch({'unclassified': True}, None,
+                             {'raised': type(e).__name__, 'msg': str(e)[:300],
+                              'at': f'{Path(last.filename).relative_to(REPO)}:{last.lineno} in {last.name}'},
+                             f'the implementation raised {type(e).__name__} at '
+                             f'{Path(last.filename).relative_to(REPO)}:{last.lineno} and the harness has no '
+                             'classification for it (run aborted after '
+                             f'{res.evaluations} cases)')
     finally:
         if env._driver:
             env._driver.close()
